@@ -239,3 +239,7 @@ class C08(core.Prop):
 
 
 PROP = C08()
+
+# shape families added after the first complete pass (DESIGN 8.6-8.11); appended to the bounds written into the evidence
+BOUNDS_ADDED = '; plus: Sc/Cn skeletons, cubane (atoms and beads), two ring markers on one bead, complete strings with a bead last level written with last_all_atom=False'
+PROP.BOUNDS = {k: v + BOUNDS_ADDED for k, v in PROP.BOUNDS.items()}
